@@ -44,8 +44,10 @@ func newEntry(key, value []byte, valueType ValueType, seqNum uint64) *entry {
 	keyCopy := make([]byte, len(key))
 	copy(keyCopy, key)
 
+	// A value entry always carries a non-nil (possibly empty) value,
+	// a nil value is reserved for deletion markers
 	var valueCopy []byte
-	if value != nil {
+	if value != nil || valueType == TypeValue {
 		valueCopy = make([]byte, len(value))
 		copy(valueCopy, value)
 	}
